@@ -381,7 +381,7 @@ class RegexPatternProvider(MorphingProvider):
 
             try:
                 return re_compile(data, flags)
-            except re.error as e:
+            except (re.error, OverflowError) as e:  # OverflowError is raised by a repetition number like {99999999999999999999}
                 raise ValueLoadError(str(e), data)
 
         return regex_loader
